@@ -73,6 +73,8 @@ def gen_elem(rng, depth, w, recs, parent, xml, max_depth=4, max_children=3):
         kind = rng.choice(['self', 'void', 'pair0'])
     if kind == 'void':
         name = rng.choice(VOID)
+        if rng.random() < 0.2:
+            name = rng.choice([name.upper(), name.capitalize()])       # HTML tag names are case-insensitive; in XML mode the element is closed explicitly
     elif kind == 'special':
         name = rng.choice(['script', 'style'])
     elif kind == 'tscript':
